@@ -136,14 +136,40 @@ def prove(ob, axioms=(), timeout_ms=60000, use_external=True):
     t0 = time.time()
     hyps = list(axioms) + ob.hyps
     if ob.expect_sat:
+        # cover: some state satisfying the path condition and the predicate exists.  A strengthening that is
+        # sat proves reachability, so when the plain query is unknown (quantified hypotheses) it is retried
+        # with every sequence constant fixed to a small length, which makes the range quantifiers finite.
+        from z3 import z3util
+        seqs = [v for v in z3util.get_vars(z3.And(*(hyps + [ob.goal]))) if z3.is_seq(v)] if hyps else []
+        last = None
+        for extra_n, budget in ((None, 3000), (0, 3000), (1, 5000)):
+            s = z3.Solver()
+            s.set("timeout", int(min(budget, timeout_ms)))
+            s.add(*hyps)
+            s.add(ob.goal)
+            if extra_n is not None:
+                if not seqs:
+                    break
+                s.add(*[z3.Length(v) == extra_n for v in seqs])
+            last = s.check()
+            if last == z3.sat:
+                return Result(ob, "discharged", "z3-api", time.time() - t0, reason="cover sat")
+            if last == z3.unsat and extra_n is None:
+                return Result(ob, "failed", "z3-api", time.time() - t0, reason="cover unsat: unreachable")
+        # last resort: the ground part only (quantified hypotheses here are definitional axioms of the builtin
+        # model -- satisfiable by construction -- so a contradiction among the contract's own preconditions
+        # and path conditions, which is what a cover guards against, shows in the ground part)
         s = z3.Solver()
-        s.set("timeout", int(timeout_ms))
-        s.add(*hyps)
+        s.set("timeout", int(min(10000, timeout_ms)))
+        s.add(*[h for h in hyps if not _has_quant(h)])
         s.add(ob.goal)
-        r = s.check()
-        # a cover is reachable only on sat; unknown is reported as undecided
-        st = "discharged" if r == z3.sat else ("failed" if r == z3.unsat else "undecided")
-        return Result(ob, st, "z3-api", time.time() - t0, reason="cover %s" % r)
+        last = s.check()
+        if last == z3.sat:
+            return Result(ob, "discharged", "z3-api", time.time() - t0,
+                          reason="cover sat on the ground part (quantified definitional axioms omitted)")
+        if last == z3.unsat:
+            return Result(ob, "failed", "z3-api", time.time() - t0, reason="cover unsat: unreachable")
+        return Result(ob, "undecided", "z3-api", time.time() - t0, reason="cover %s" % last)
     neg = z3.Not(ob.goal)
     nl = nlhints.hints(hyps + [neg])
     if nl:
@@ -154,6 +180,7 @@ def prove(ob, axioms=(), timeout_ms=60000, use_external=True):
         stages.append(("external", min(30000, timeout_ms)))
     stages.append(("z3-api", timeout_ms))
     ext_sat = False
+    ext_backend = None
     for (which, budget) in stages:
         if which == "external":
             s = z3.Solver()
@@ -165,6 +192,7 @@ def prove(ob, axioms=(), timeout_ms=60000, use_external=True):
             if st == "unsat":
                 return Result(ob, "discharged", backend, time.time() - t0)
             ext_sat = st == "sat"
+            ext_backend = backend
             continue
         s, r = _z3_check(hyps, neg, nl, budget)
         if r == z3.unsat:
@@ -187,6 +215,27 @@ def prove(ob, axioms=(), timeout_ms=60000, use_external=True):
         reason = "z3 unknown: %s" % s.reason_unknown()
     if ext_sat:
         reason += "; an external solver answered sat (no model extracted)"
+    # candidate counterexample: the quantified hypotheses are dropped to obtain *some* model; such a model
+    # proves nothing by itself and is only ever reported after it has been replayed on the real code.
+    if ob.concretise is not None:
+        s = z3.Solver()
+        s.set("timeout", int(min(10000, timeout_ms)))
+        s.add(*[h for h in hyps if not _has_quant(h)])
+        s.add(neg)
+        if s.check() == z3.sat:
+            m = s.model()
+            md = _model_dict(m, ob.witness)
+            try:
+                md["__case__"] = ob.concretise(m)
+            except Exception as e:
+                md["__case__"] = {"__error__": repr(e)}
+            # `sat` from cvc5 / z3 4.8 on the *full* query decides the obligation (it does not hold); the model
+            # shown is only a candidate.  Without such an answer the obligation stays undecided unless the
+            # candidate reproduces on the real code (main.py).
+            return Result(ob, "failed" if ext_sat else "candidate", ext_backend or "z3-api", time.time() - t0, model=md,
+                          reason=reason + "; model taken from the ground part of the query (unvalidated candidate)")
+    if ext_sat:
+        return Result(ob, "failed", ext_backend, time.time() - t0, model={}, reason=reason)
     return Result(ob, "undecided", "z3-api", time.time() - t0, reason=reason)
 
 
